@@ -48,7 +48,7 @@ FILES = [
     "qucumber/utils/training_statistics.py",
     "qucumber/utils/unitaries.py",
 ]
-REQUIRED_THEOREMS = ["C14_frame_rng", "C14_frame_rng_unchanged", "C14_seeded_determinism", "C14_read_only_step",
+REQUIRED_THEOREMS = ["C14_forwarded_read_only", "C14_forwarded_table", "C14_frame_rng", "C14_frame_rng_unchanged", "C14_seeded_determinism", "C14_read_only_step",
                      "C14_read_only", "C14_read_only_skeleton", "C14_draw_count", "C14_draw_count_closed_forms",
                      "C14_different_seed_partial", "C14_seed_accepted", "C14_seed_rejected", "C14_same_stream_same_results",
                      "C14_read_only_ops_ext", "C14_fit_evaluator_calls", "C14_fit_evaluator_draws", "C14_eval_epochs_closed"]
@@ -276,6 +276,48 @@ def check_api(ctx, api, executed):
               sig="api/not-executed", theorem="C14_read_only_step")
     ctx.count("api_public_callables", len(api))
     ctx.count("api_operation_classes_executed", len({c for cl in API_OPS.values() for c in cl} & set(executed)))
+
+def check_forwarding(ctx, fwd):
+    """(extension round 2) attribute forwarding `state.<name>` -> `rbm_am.<name>` (NeuralStateBase.__getattr__ / WaveFunctionBase.__getattr__)
+    as the runner observed it on real states, against QV.Frame.resolveMethod / rbmMethods (driver op c14.resolve); the class the model gives
+    a forwarded name against the operation table of this harness (whose evaluator / gibbs classes ARE executed, see check_api); and the
+    compute_normalization alias. Auxiliary: the property constrains what the operations do, not how names are resolved."""
+    if not fwd or ctx.driver is None:
+        ctx.count("forwarding probe: not available" if not fwd else "forwarding probe: no driver")
+        return
+    for kind in ("pos", "cplx", "dens"):
+        rows = [r for r in fwd["rows"] if r[0] == kind]
+        own = sorted({r[1] for r in rows if r[2]})
+        names = [r[1] for r in rows]
+        m = ctx.driver.call("c14.resolve", kind=kind, own=own, names=names)
+        case = {"forwarding": kind, "own": own, "names": names}
+        impl = [[r[1], r[3]] for r in rows]
+        model = [[n, o] for n, (o, _c) in zip(names, m["resolved"])]
+        ctx.point(f"attribute resolution on a {kind} state (own / forwarded to rbm_am / AttributeError)", "aux", impl, model, case, exact=True,
+                  sig=f"forwarding/resolution/{kind}", theorem="C14_forwarded_read_only / C14_forwarded_table")
+        for r in rows:
+            ctx.count(f"forwarding: {r[3]}")
+        # the model's class of every forwarded name against this harness's operation table
+        cls_model = {n: c for n, (o, c) in zip(names, m["resolved"]) if o == "forwarded"}
+        cls_table = {}
+        for n in cls_model:
+            key = "rbm." + n
+            if key in API_OPS:
+                cls_table[n] = "evaluator" if API_OPS[key] == [("eval", "fwd_" + n)] else "gibbs" if API_OPS[key] == [("batchGradient", "fwd")] else "?"
+            elif key in API_EXCLUDED:
+                cls_table[n] = "initParams" if n == "initialize_parameters" else "halfStep"
+            else:
+                cls_table[n] = "unclassified"
+        ctx.point(f"class of every forwarded method ({kind}): model table vs operation table", "aux", cls_table, cls_model, case, exact=True,
+                  sig=f"forwarding/class/{kind}", theorem="C14_forwarded_read_only")
+        tab = sorted(n for n, _c in m["table"])
+        seen = sorted(r[1] for r in rows if r[3] == "forwarded")
+        ctx.point(f"forwarded names observed on a {kind} state vs the model's rbmMethods", "aux", seen, tab, case, exact=True,
+                  sig=f"forwarding/table/{kind}", theorem="C14_forwarded_table")
+    ctx.point("compute_normalization(space) == normalization(space) == forwarded partition(space), bit for bit", "aux",
+              [list(a) for a in fwd["alias"]], [[k, True] for k in ("pos", "cplx", "dens")], {"forwarding": "alias"}, exact=True,
+              sig="forwarding/compute_normalization", theorem="C14_forwarded_read_only")
+
 THM_DET = "C14_seeded_determinism / C14_frame_rng"
 THM_RO = "C14_read_only_step / C14_read_only"
 
@@ -1136,6 +1178,7 @@ def run_cases(ctx, cases):
             ctx.count(f"runner processes inside environment {e[0]}: default dtype {e[1]}, grad enabled {e[2]}, cwd changed {e[3]}")
         if impl[0].get("api") is not None:
             ctx.c14_api = impl[0]["api"]
+            ctx.c14_fwd = impl[0].get("fwd")
         done = getattr(ctx, "c14_executed", set())
         for op, rec in zip(case["runs"][0], impl[0]["records"]):
             if rec["out"]["kind"] != "err":
@@ -1155,6 +1198,7 @@ def run(ctx):
     run_cases(ctx, gen_cases(ctx, count, sweeps=6 if ctx.tier == "thorough" else 1))
     # completeness of the enumeration of operations: the public API as found by introspection in the runner processes
     check_api(ctx, getattr(ctx, "c14_api", []), getattr(ctx, "c14_executed", set()))
+    check_forwarding(ctx, getattr(ctx, "c14_fwd", None))
 
 
 def search(ctx):
